@@ -40,6 +40,7 @@ pub fn part_c01(tier: Tier) -> Part {
         continue_after_start: true,
         watches: 0,
         terminals: false,
+        ext_sigint: false,
         wall: wall_cap(tier, 50, 2400),
     };
     explore_all(tier, &cfg, 3, &mut part);
@@ -60,6 +61,7 @@ pub fn part_c02(tier: Tier) -> Part {
         continue_after_start: true,
         watches: 0,
         terminals: false,
+        ext_sigint: false,
         wall: wall_cap(tier, 50, 2400),
     };
     explore_all(tier, &cfg, 2, &mut part);
@@ -95,6 +97,7 @@ pub fn part_c03(tier: Tier) -> Part {
         continue_after_start: true,
         watches: 0,
         terminals: false,
+        ext_sigint: false,
         wall: wall_cap(tier, 50, 3000),
     };
     explore_all_with(tier, &cfg, &mut part, |p| {
@@ -121,6 +124,7 @@ pub fn part_c11(tier: Tier) -> Part {
         continue_after_start: true,
         watches: 1,
         terminals: true,
+        ext_sigint: false,
         wall: wall_cap(tier, 50, 3000),
     };
     // exit codes 0..199 come from the computed value; the sleep keeps a released process alive
@@ -170,6 +174,7 @@ pub fn part_c14_regs(tier: Tier) -> Part {
         continue_after_start: true,
         watches: 7,
         terminals: tier == Tier::Thorough,
+        ext_sigint: false,
         wall: wall_cap(tier, 50, 3000),
     };
     let bodies = vec![vec![Stmt::Raise(14), Stmt::Assign, Stmt::Sleep(40)]];
@@ -209,6 +214,7 @@ pub fn part_c18(tier: Tier) -> Part {
         continue_after_start: true,
         watches: 0,
         terminals: false,
+        ext_sigint: false,
         wall: wall_cap(tier, 50, 2400),
     };
     // the same programs linked as classic (ET_EXEC) and as position independent executables:
@@ -258,6 +264,7 @@ pub fn part_c10(tier: Tier) -> Part {
         continue_after_start: true,
         watches: 0,
         terminals: false,
+        ext_sigint: true,
         wall: wall_cap(tier, 50, 3000),
     };
     let bodies = vec![
@@ -306,6 +313,7 @@ pub fn part_c05(tier: Tier) -> Part {
         continue_after_start: true,
         watches: 0,
         terminals: false,
+        ext_sigint: false,
         wall: wall_cap(tier, 50, 3000),
     };
     explore_all_with(tier, &cfg, &mut part, |p| candidates(p, 4).into_iter().filter(|c| !matches!(c, Cand::Line(_))).take(2).collect());
